@@ -25,7 +25,7 @@ ASSUMPTIONS = [
     "mixed derivative relation decided by integration (scipy nquad, 1e-9) against exact F-volumes, not by numerical differentiation",
 ]
 REQUIRED_COUNTERS = ["grounded_checks", "volume_checks", "margin_checks", "conditional_monotone_checks", "inverse_roundtrips",
-                     "mixed_derivative_checks"]
+                     "mixed_derivative_checks", "copula_parameter_reassigned", "volume_checks_all_infinite_upper_corner"]
 MIN_NONTRIVIAL = {"quick": 30, "thorough": 300}
 THOROUGH_ROUNDS = 8      # the thorough tier runs the generators this many times (different seeds)
 
@@ -125,12 +125,22 @@ def run_case(case, R):
             if x == y:
                 y = x + abs(x) * 0.5 + 1e-9
             a[k], b[k] = x, y
-        if np.all(np.isinf(b)):
-            # F(inf, ..., inf) = inf by definition of a Levy copula: such a rectangle has infinite volume
+        all_inf = bool(np.all(np.isinf(b)))
+        if all_inf and rng.random() < 0.5:
             b[int(rng.integers(d))] = abs(_mag(rng)) + max(0.0, float(np.max(a[np.isfinite(a)], initial=0.0)))
+            all_inf = False
         R.hit("volume_checks")
         vol, scale = _volume(F, a, b)
-        if vol < -1e-12 * scale - 1e-300:
+        if all_inf:
+            # every upper end is +inf: the volume is +inf or finite, never negative, never undefined (F(inf, ..., inf) = sum of u_i for
+            # independent components, eta * inf for Clayton)
+            R.hit("volume_checks_all_infinite_upper_corner")
+            if not (vol >= 0.0):
+                R.violation(f"{kind}-{d}d-negative-volume-all-infinite-upper-corner", f"{label}: the rectangle ({a.tolist()}, {b.tolist()}] has volume {vol!r} "
+                            f"(F at the all-infinite corner = {float(F(np.full(d, math.inf)))!r})", wit)
+                break
+            continue
+        if not (vol >= -1e-12 * scale - 1e-300):
             orth = "straddling-0" if any(x < 0 < y for x, y in zip(a, b)) else "single-orthant"
             R.violation(f"{kind}-{d}d-negative-volume-{orth}", f"{label}: the rectangle ({a.tolist()}, {b.tolist()}] has volume {vol!r} < 0 "
                         f"(corner magnitude {scale!r})", wit)
@@ -169,6 +179,12 @@ def run_case(case, R):
     if kind == "clayton":
         if d == 2:
             _conditional(F, c, rng, R, label, wit)
+            # theta re-assigned on the same object (it is a validated, settable attribute): every method must follow
+            theta2 = W.r6(W._logu(rng, 0.2, 8.0))
+            F.theta = theta2
+            R.hit("copula_parameter_reassigned")
+            _conditional(F, dict(c, theta=theta2), rng, R, label + f"[theta re-assigned to {theta2}]", wit, suffix="-after-theta-reassigned")
+            F.theta = c["theta"]
         _mixed(F, c, d, rng, R, label, wit)
     else:
         R.hit("conditional_monotone_checks", 0)
@@ -177,20 +193,20 @@ def run_case(case, R):
     R.sample({"copula": c, "dim": d, "F(1,..,1)": float(F(np.ones(d))), "F(-1,1,..)": float(F(np.array([-1.0] + [1.0] * (d - 1))))})
 
 
-def _conditional(F, c, rng, R, label, wit):
+def _conditional(F, c, rng, R, label, wit, suffix=""):
     for eps in [float(_mag(rng) * s) for s in (1, -1, 1, -1)] + [1.0, -1.0, 1e-6, -1e6]:
         xs = np.concatenate([-np.logspace(8, -8, 200), np.logspace(-8, 8, 200)])
         vals = np.array([float(F.conditional_distribution(eps, np.array([x]))[0]) for x in xs])
         R.hit("conditional_monotone_checks")
         if np.any(np.diff(vals) < -1e-13) or vals[0] < -1e-13 or vals[-1] > 1 + 1e-13 or np.any(~np.isfinite(vals)):
             i = int(np.argmin(np.diff(vals)))
-            R.violation("clayton-conditional-distribution-not-a-distribution", f"{label}: F_eps(x) for eps = {eps!r} is not a distribution "
+            R.violation("clayton-conditional-distribution-not-a-distribution" + suffix, f"{label}: F_eps(x) for eps = {eps!r} is not a distribution "
                         f"function in x: values {vals[i]!r} -> {vals[i + 1]!r} at x = {xs[i]!r} -> {xs[i + 1]!r}; range [{vals[0]!r}, {vals[-1]!r}]", wit)
             return
         lo_lim = float(F.conditional_distribution(eps, np.array([-1e300]))[0])
         hi_lim = float(F.conditional_distribution(eps, np.array([1e300]))[0])
         if not (abs(lo_lim) <= 1e-9 and abs(hi_lim - 1) <= 1e-9):
-            R.violation("clayton-conditional-distribution-limits", f"{label}: F_eps(-1e300) = {lo_lim!r}, F_eps(1e300) = {hi_lim!r} for eps = {eps!r}", wit)
+            R.violation("clayton-conditional-distribution-limits" + suffix, f"{label}: F_eps(-1e300) = {lo_lim!r}, F_eps(1e300) = {hi_lim!r} for eps = {eps!r}", wit)
             return
         # inverse round trips
         for _ in range(8):
@@ -204,11 +220,11 @@ def _conditional(F, c, rng, R, label, wit):
             if not np.isfinite(x):
                 if (c["eta"] in (0.0, 1.0)):
                     continue   # y outside the range of F_eps when all the mass sits on one side
-                R.violation("clayton-inverse-conditional-not-finite", f"{label}: inverse_conditional_distribution(eps={eps!r}, y={y!r}) = {x!r}", wit)
+                R.violation("clayton-inverse-conditional-not-finite" + suffix, f"{label}: inverse_conditional_distribution(eps={eps!r}, y={y!r}) = {x!r}", wit)
                 return
             back = float(F.conditional_distribution(eps, np.array([x]))[0])
             if not (abs(back - y) <= 1e-9):
-                R.violation("clayton-inverse-conditional-does-not-invert", f"{label}: F_eps(inverse(y)) = {back!r} for y = {y!r}, eps = {eps!r} "
+                R.violation("clayton-inverse-conditional-does-not-invert" + suffix, f"{label}: F_eps(inverse(y)) = {back!r} for y = {y!r}, eps = {eps!r} "
                             f"(inverse = {x!r})", wit)
                 return
             x0 = float(10 ** rng.uniform(-3, 3)) * (1 if rng.random() < 0.5 else -1)
@@ -216,7 +232,7 @@ def _conditional(F, c, rng, R, label, wit):
             if 1e-9 < y0 < 1 - 1e-9 and abs(y0 - at0) > 1e-9:
                 x1 = float(np.asarray(F.inverse_conditional_distribution(np.array([eps]), np.array([y0]))).reshape(-1)[0])
                 if not (abs(x1 - x0) <= 1e-6 * abs(x0)):
-                    R.violation("clayton-inverse-conditional-does-not-invert", f"{label}: inverse(F_eps({x0!r})) = {x1!r} (eps = {eps!r})", wit)
+                    R.violation("clayton-inverse-conditional-does-not-invert" + suffix, f"{label}: inverse(F_eps({x0!r})) = {x1!r} (eps = {eps!r})", wit)
                     return
 
 
